@@ -67,8 +67,40 @@ def _build_sig(tree):
     return W.Signature(members)
 
 
+class _Bag:
+    """plain attribute container used for the dict returned by SignatureMembers.create()"""
+    def __init__(self, signature, attrs):
+        self.__dict__.update(attrs)
+        self.signature = signature
+
+
+def from_signature(S, how, tag):
+    """an interface object built DIRECTLY from the signature object S (plain or flipped) along route `how`"""
+    from amaranth.lib import wiring as W
+    if how == "create":
+        return S.create(path=(tag,))
+    if how == "pure":
+        return W.PureInterface(S, path=(tag,))
+    if how == "comp":
+        class Comp(W.Component):
+            def __init__(self):
+                super().__init__(S)
+        return Comp()
+    if how == "annot":
+        return type("AnnotComp", (W.Component,), {"__annotations__": {name: S.members[name] for name in S.members}})()
+    if how == "mcreate":
+        return _Bag(S, S.members.create(path=(tag,)))
+    raise ValueError(how)
+
+
+U_ROUTES = ["plain", "pure", "comp", "annot", "mcreate"]                                  # objects made from sig
+F_ROUTES = ["flip", "flipped", "flip:pure", "flip:comp", "flip:annot", "flip:mcreate"]      # ... from sig.flip()
+
+
 def realize(tree, mode, tag):
-    """an interface object whose effective description is `tree`, obtained along three different routes"""
+    """an interface object whose effective description is `tree`. plain/pure/comp/annot/mcreate build it from
+    Signature(tree); flip, flip:* build it from Signature(flip_top(tree)).flip() (a FlippedSignature with the same
+    effective description); flipped wraps an object of the opposite description"""
     from amaranth.lib import wiring as W
     if mode == "plain":
         return build_sig(tree).create(path=(tag,))
@@ -76,7 +108,9 @@ def realize(tree, mode, tag):
         return build_sig(R.flip_top(tree)).flip().create(path=(tag,))
     if mode == "flipped":
         return W.flipped(build_sig(R.flip_top(tree)).create(path=(tag,)))
-    raise ValueError(mode)
+    if mode.startswith("flip:"):
+        return from_signature(build_sig(R.flip_top(tree)).flip(), mode[5:], tag)
+    return from_signature(build_sig(tree), mode, tag)
 
 
 def walk(obj, path):
@@ -165,9 +199,16 @@ def part_sig(tree, out):
         except Exception as e:
             out.viol(f"members.flatten:{tag}:{c}:{ename(e)}", f"members.flatten of {c} ({tag}) raised {e!r}", tree, "sig")
     # -- created interfaces comply; Signature.flatten visits every leaf once with its effective direction
-    for tag, fl, mk in (("create", False, lambda: (sig, sig.create(path=("t",)))),
-                        ("flip.create", True, lambda: (sig.flip(), sig.flip().create(path=("t",)))),
-                        ("flipped(create)", True, lambda: (sig.flip(), W.flipped(sig.create(path=("t",)))))):
+    routes = [("create", False, lambda: (sig, sig.create(path=("t",)))),
+              ("flip.create", True, lambda: (sig.flip(), sig.flip().create(path=("t",)))),
+              ("flipped(create)", True, lambda: (sig.flip(), W.flipped(sig.create(path=("t",))))),
+              ("flipped(flip.create)", False, lambda: (sig, W.flipped(sig.flip().create(path=("t",)))))]
+    for how in ("pure", "comp", "annot", "mcreate"):
+        if how == "annot" and not tree:
+            continue        # a component class needs at least one annotated member
+        routes.append((how, False, lambda how=how: (sig, from_signature(sig, how, "t"))))
+        routes.append(("flip:" + how, True, lambda how=how: (sig.flip(), from_signature(sig.flip(), how, "t"))))
+    for tag, fl, mk in routes:
         out.add("evaluations")
         want = R.leaves(tree, fl)
         try:
@@ -177,8 +218,15 @@ def part_sig(tree, out):
                 reasons = []
                 s.is_compliant(obj, reasons=reasons)
                 out.viol(f"{tag}:{c}:not-compliant", f"{tag} of {c} does not comply with its signature: {reasons}", tree, "sig")
-            if not (obj.signature == s):
+            if not (obj.signature == s) or not (s == obj.signature):
                 out.viol(f"{tag}:{c}:signature-attr", f"{tag} of {c}: obj.signature != signature", tree, "sig")
+            out.add("objects_created")
+            # every nested sub-interface carries the (flipped or not) sub-signature the reference tree says
+            step = "nested-signature"
+            badsub = check_nested(obj, tree, fl, out)
+            if badsub:
+                out.viol(f"{tag}:{c}:nested-signature", f"{tag} of {c}: sub-interface signatures differ from the description: "
+                         f"{badsub[:3]}", tree, "sig")
             # independent walk of the object
             step = "walk"
             seen = set()
@@ -212,6 +260,30 @@ def part_sig(tree, out):
                          f"(path, (dir, width, signed, id)) {diff}", tree, "sig")
         except Exception as e:
             out.viol(f"{tag}:{c}:{step}:{ename(e)}", f"{tag} of {c}: {step} raised {e!r}", tree, "sig")
+
+
+def check_nested(obj, tree, flipped, out, prefix=()):
+    """for every signature member (every index): obj.<path>.signature must describe exactly the sub-tree with its
+    effective orientation -- compared structurally against the oracle (members.flatten vs R.nodes) and with =="""
+    from amaranth.lib import wiring as W
+    bad = []
+    for name, n in tree:
+        if n["k"] != "s":
+            continue
+        ef = flipped ^ (n["f"] == "i")
+        for idx in R.indices(n["d"]):
+            p = (*prefix, name, *idx)
+            sub = walk(obj, (name, *idx))
+            out.add("nested_signature_checks")
+            ssig = sub.signature
+            got = sorted((q, "o" if m.flow == W.Out else "i", "p" if m.is_port else "s", tuple(m.dimensions))
+                         for q, m in ssig.members.flatten())
+            want = sorted(R.nodes(n["t"], ef))
+            ref = build_sig(n["t"]).flip() if ef else build_sig(n["t"])
+            if got != want or not (ssig == ref) or not (ref == ssig):
+                bad.append((p, "effective orientation " + ("flipped" if ef else "as declared"), got, want))
+            bad += check_nested(sub, n["t"], ef, out, p)
+    return bad
 
 
 def check_lens(obj, tree, npath):
@@ -289,10 +361,10 @@ IDLE_MIN_PORTS = 2       # an idle-* tuple needs one driven and one all-input po
 
 class Tuple_:
     """k realized interfaces + oracle view of them"""
-    def __init__(self, xs, modes, allow_idle=False):
+    def __init__(self, xs, modes, allow_idle=False, ifaces=None):
         self.xs = xs
         self.k = len(xs)
-        self.ifaces = [realize(x, modes[j], f"i{j}") for j, x in enumerate(xs)]
+        self.ifaces = ifaces if ifaces is not None else [realize(x, modes[j], f"i{j}") for j, x in enumerate(xs)]
         self.lv = [{l[0]: l for l in R.leaves(x)} for x in xs]
         self.paths = [l[0] for l in R.leaves(xs[0])]
         self.info = {p: l[2:] for p, l in self.lv[0].items()}       # path -> (w, signed, init)
@@ -498,6 +570,59 @@ def part_connect(tree, out, variations, all_perm_sims=False):
             out.viol(f"connect:{vname}:{c}:{step}:{ename(e)}", f"connect of {vname} over {c}: {step} raised {e!r}", tree, "connect")
 
 
+def part_routes(tree, out, n_sims=2):
+    """an object made from sig by every route, connected with an object made from sig.flip() by every route"""
+    from amaranth.hdl import Module
+    from amaranth.lib import wiring as W
+    c = R.canon(tree)
+    if not R.leaves(tree):
+        return
+    xs = derive(tree, 2, "self")
+    pairs = [(u, f) for u in U_ROUTES for f in F_ROUTES]
+    sim_pairs = {("pure", "flip:pure"), ("comp", "flip:mcreate"), ("mcreate", "flip:comp"), ("annot", "flip:annot"),
+                 ("plain", "flip:pure"), ("pure", "flipped")}
+    sim_pairs = set(sorted(sim_pairs)[:n_sims]) if n_sims < len(sim_pairs) else sim_pairs
+    objs = {}
+    for j, routes in ((0, U_ROUTES), (1, F_ROUTES)):
+        for r in routes:
+            try:
+                objs[r] = realize(xs[j], r, f"i{j}")
+            except Exception as e:
+                out.viol(f"connect:routes:{r}:{c}:create:{ename(e)}", f"creating an object of {c} by route {r} raised {e!r}",
+                         tree, "routes")
+    for u, f in pairs:
+        if u not in objs or f not in objs:
+            continue
+        vname = f"routes:{u}+{f}"
+        out.add("evaluations")
+        out.add("route_pairs")
+        step = "oracle"
+        try:
+            tp = Tuple_(xs, (u, f), ifaces=[objs[u], objs[f]])
+            vals = tp.leaf_values()
+            idmap = {id(vals[j][p]): (j, p) for j in range(2) for p in tp.paths}
+            want = expected_map(tp, {})
+            step = "connect"
+            for order in ((0, 1), (1, 0)) if (u, f) in sim_pairs else ((0, 1),):
+                m = Module()
+                W.connect(m, *[tp.ifaces[j] for j in order])
+                frag, got, _n = stmt_map(m, idmap)
+                if got != want:
+                    out.viol(f"connect:{vname}:{c}:order{order}:map", f"connect of objects created by {u} (from sig) and {f} "
+                             f"(from sig.flip()) over {c}: input<-output map differs: {sorted(got ^ want, key=repr)[:4]}",
+                             tree, "routes")
+            out.add("connect_accepted")
+            if (u, f) in sim_pairs:
+                step = "simulate"
+                errs = simulate(frag, tp, vals, {}, out)
+                out.add("simulations")
+                if errs:
+                    out.viol(f"connect:{vname}:{c}:flow", f"connect of {vname} over {c}: {errs[:3]}", tree, "routes")
+        except Exception as e:
+            out.viol(f"connect:{vname}:{c}:{step}:{ename(e)}", f"connect of objects created by {u} (from sig) and {f} (from "
+                     f"sig.flip()) over {c}: {step} raised {e!r}", tree, "routes")
+
+
 # ---------------------------------------------------------------------------------------------- part 3: corruptions
 def corruptions(tp_xs, only_idle=False):
     """all single-point corruptions of the tuple of descriptions xs: (kind, j, where, tree-edit or object-edit).
@@ -669,6 +794,8 @@ def check_trees(task):
             part_sig(tree, out)
         if "connect" in opts["parts"]:
             part_connect(tree, out, opts["variations"], opts.get("all_perm_sims", False))
+        if "routes" in opts["parts"] and (opts.get("routes_flat", True) or any(n["k"] == "s" for _, n in tree)):
+            part_routes(tree, out, opts.get("route_sims", 2))
         if "corrupt" in opts["parts"]:
             part_corrupt(tree, out, opts["bases"])
         if "meta" in opts["parts"] and len(R.node_paths(tree)) <= opts.get("meta_max_members", 99):
@@ -716,7 +843,7 @@ def run(rep):
     rep.setcov("trees_with_signature_member_arrays", sum(1 for t in trees if R.has_sub_array(t)))
     rep.setcov("trees_depth3", sum(1 for t in trees if R.depth(t) >= 3))
     rep.setcov("space_hash", hashlib.sha1("\n".join(sorted(seen)).encode()).hexdigest())
-    opts = {"parts": ["sig", "connect", "corrupt", "meta"],
+    opts = {"parts": ["sig", "connect", "routes", "corrupt", "meta"], "route_sims": rep.pick(1, 3), "routes_flat": not rep.quick,
             "variations": QUICK_VARS if rep.quick else list(VARIATIONS),
             "bases": ["k2:T+T.flip", "k2:idle-odd"] if rep.quick else
             ["k2:T+T.flip", "k3:rr", "k2:idle-odd", "k3:idle-even"],
@@ -742,8 +869,10 @@ def run(rep):
                           "trees with one member or with a signature member (not flat two-port signatures)"})
     rep.setcov("rule", "every signature tree inside `bounds` (unordered member pairs, names/insertion order alternating; port "
                "shape/init by rotation in the structural families, full product in the attribute family); per tree: double "
-               "flip, member- and leaf-level flatten vs an independent walk for sig / sig.flip(), compliance of create() along "
-               "3 routes; every listed tuple variation connected, statement map compared with the oracle, simulated with every "
+               "flip, member- and leaf-level flatten vs an independent walk for sig / sig.flip(), compliance of objects created along "
+               "12 routes (create, flip().create, flipped(), PureInterface, Component by __init__ and by annotations, "
+               "members.create -- each from sig and from sig.flip()) incl. the signature of every nested sub-interface; every "
+               "(route from sig) x (route from sig.flip()) pair connected both ways and compared with the oracle map; every listed tuple variation connected, statement map compared with the oracle, simulated with every "
                "value of every output leaf, every argument permutation + keyword form; idle-* tuples where every second port member is "
                "an input on ALL interfaces (no statement for it, it keeps its init in simulation, and each width / init "
                "corruption of it, signature- and object-level, must still raise ConnectionError); every single-point corruption (missing "
@@ -756,7 +885,7 @@ def run(rep):
                 "leaf_follow_checks", "leaf_idle_checks", "leaves_flattened", "constant_leaves", "metadata_documents",
                 "metadata_leaves", "corrupt_missing", "corrupt_width", "corrupt_init", "corrupt_second-output",
                 "corrupt_const-differs", "corrupt_const-vs-signal", "corrupt_obj-width", "corrupt_obj-init", "corrupt_dims",
-                "idle_tuples", "idle_leaves", "corrupt_idle-width", "corrupt_idle-init", "corrupt_idle-obj-width",
+                "objects_created", "nested_signature_checks", "route_pairs", "idle_tuples", "idle_leaves", "corrupt_idle-width", "corrupt_idle-init", "corrupt_idle-obj-width",
                 "corrupt_idle-obj-init"):
         rep.require(rep.cov.get(key, 0) > 0, f"{key} never exercised")
     rep.require(rep.cov["trees_depth3"] > 0, "no tree with two nested signature levels")
@@ -768,6 +897,6 @@ def replay(payload):
     tree = R.norm(payload["tree"])
     opts = {"parts": [payload["part"]], "variations": list(VARIATIONS),
             "bases": ["k2:T+T.flip", "k3:rr", "k2:T+flipped(T)", "k2:idle-odd", "k3:idle-even", "k2:idle-even"],
-            "all_perm_sims": True, "meta_both": True}
+            "all_perm_sims": True, "meta_both": True, "route_sims": 6, "routes_flat": True}
     res = check_trees(([tree], opts))
     return [v["what"] for v in res["violations"] if v["sig"] == payload["sig"]]
